@@ -24,7 +24,9 @@ type caseC02 struct {
 	// ArgHist > 0 (add/sub with a distinct argument object): the SAME argument object was passed to the same function before, on
 	// another receiver, while it held a related value, and was then changed in place to the value under test: 1 it held -Q and
 	// was negated in place (x and z identical); 2 it held Q+G and G was subtracted; 3 it held Q, was overwritten by Set(-Q),
-	// passed again and negated. What a function remembers about an argument object must not outlive the object's value.
+	// passed again and negated; 4 it was passed, then a Go VALUE COPY of it (`cp := *arg`) was negated; 5 it was passed, and a value
+	// copy that was negated twice is the argument. What a function remembers about an argument object must not outlive the
+	// object's value, and must not be shared with struct copies.
 	ArgHist int `json:"arg_hist,omitempty"`
 }
 
@@ -96,7 +98,7 @@ var c02 = gen.Register(&gen.Check[caseC02]{
 			}
 		}
 		if gen.Chance(t, "argHist", 1, 4) {
-			c.ArgHist = 1 + gen.Pick(t, "argHistKind", 3)
+			c.ArgHist = 1 + gen.Pick(t, "argHistKind", 5)
 		}
 		return c
 	},
@@ -114,7 +116,7 @@ var c02 = gen.Register(&gen.Check[caseC02]{
 			for _, pq := range [][2]pt.Spec{{g, g}, {g, gz}, {gz, g}, {g, ng}, {gz, ngz}, {g, ngz}, {g, id}, {id, g}, {id, id}, {idm, gz}, {gz, idy}, {idy, idm}, {idw, g}, {g, idw}, {idw, idy}} {
 				out = append(out, caseC02{P: pq[0], Q: pq[1], Op: op, Rel: "fixed"})
 			}
-			for h := 1; h <= 3; h++ {
+			for h := 1; h <= 5; h++ {
 				out = append(out, caseC02{P: g, Q: gz, Op: op, Rel: "fixed", ArgHist: h}, caseC02{P: gz, Q: ng, Op: op, Rel: "fixed", ArgHist: h}, caseC02{P: id, Q: g, Op: op, Rel: "fixed", ArgHist: h})
 			}
 			out = append(out, caseC02{P: gz, Q: gz, Op: op, Rel: "self", Alias: "self"}, caseC02{P: idy, Q: idy, Op: op, Rel: "self", Alias: "self"},
@@ -201,6 +203,17 @@ var c02 = gen.Register(&gen.Check[caseC02]{
 				arg.Add(g)
 				call()
 				arg.Subtract(g)
+			case 4:
+				call()
+				cp := *arg
+				cp.Negate()
+			case 5:
+				call()
+				cp := *arg
+				cp.Negate()
+				call()
+				cp.Negate()
+				arg = &cp
 			default:
 				call()
 				neg := arg.Copy().Negate()
